@@ -551,9 +551,11 @@ func TestC18(t *testing.T) {
 	t.Run("L3", func(t *testing.T) { runFollower(t, rep) })
 }
 
-func runFollower(t *testing.T, rep *report.R) {
+func runFollower(t *testing.T, rep *report.R) { rapid.Check(t, followerProp(rep)) }
+
+func followerProp(rep *report.R) func(*rapid.T) {
 	failed := false
-	rapid.Check(t, func(rt *rapid.T) {
+	return func(rt *rapid.T) {
 		d := newL3(rt)
 		defer func() {
 			if r := recover(); r != nil {
@@ -619,6 +621,5 @@ func runFollower(t *testing.T, rep *report.R) {
 			rep.Case(d.overwroteInFlight || d.staleAck || d.snapBetween, report.Digest(strings.Join(d.trace, ";")), cls,
 				func() string { return "L3: " + strings.Join(d.trace, " ; ") })
 		}
-	})
-	_ = failed
+	}
 }
